@@ -310,6 +310,8 @@ func ruleWin1(c *Ctx, r *Reporter) {
 			}
 			n++
 			arg := stripValue(call.Call.Args[0])
+			// a private helper sorts what its only caller hands it
+			arg = stripValue(resolveHelperValue(arg))
 			ok2, why := localFreshList(arg, map[ssa.Value]bool{})
 			key := fmt.Sprintf("%s:%s", funcName(fn), strings.TrimPrefix(name, "github.com/256dpi/lungo/"))
 			// pushSort* sort the new array that applyPush built: parameter by contract, checked at the caller
